@@ -181,6 +181,8 @@ def build():
 
     p.on_yield = on_yield
 
+    MAX_POLL_S = 0.05
+
     # promptness, second half: the retrieval thread never goes to sleep while the result it has to deliver next is ready
     def sleep(interp, args, kwargs):
         ctx = interp.ctx
@@ -196,6 +198,17 @@ def build():
             ok = ll == 0
         ctx.check("%s/sleep.only-when-nothing-is-ready" % interp.contract.qualname, ok,
                   detail="time.sleep in the retrieval loop only when no job is queued (or, ordered, the head job is still pending)")
+        # ... and a result that becomes ready during a sleep waits for the end of it: "as soon as" tolerates a polling interval, not one that grows
+        # with the waiting time (seeded change C16-retrieval-poll-backoff-not-reset: 10 ms doubling up to 1.28 s)
+        d = args[0] if args else None
+        if isinstance(d, (int, float)) and not isinstance(d, bool):
+            short = d <= MAX_POLL_S
+        elif kind_of(d) in (INT, REAL):
+            short = ops.as_num_term(d) <= z3.RealVal(str(MAX_POLL_S))
+        else:
+            short = False
+        ctx.check("%s/sleep.poll-interval-is-short" % interp.contract.qualname, short,
+                  detail="each sleep of the retrieval loop lasts at most %.2f s" % MAX_POLL_S)
         return None
 
     p.models["time.sleep"] = sleep
